@@ -23,6 +23,14 @@ pub enum Case {
     Pearson { float: String, cols: Vec<Vec<f64>>, perms: String },
     /// malformed call that the API documents as an error: label vectors of different length
     LabelsLenMismatch { n_pred: usize, n_truth: usize },
+    /// silhouette with an explicit float type (f64 | f32)
+    SilhouetteF { float: String, points: Vec<Vec<f64>>, labels: Vec<usize>, perms: String },
+    /// the base case's inputs handed over in every non-standard memory layout (reversed / strided views
+    /// of poisoned parents, column-major, transposed ...); results must equal the standard-layout run
+    Layouts { base: Box<Case> },
+    /// the base case's vectors / rows cyclically repeated up to length `n` (element i = base[i mod m]);
+    /// run through the normal oracles, optionally also through the layout checks
+    Replicated { base: Box<Case>, n: usize, layouts: bool },
 }
 
 #[derive(Default, Debug)]
